@@ -422,6 +422,14 @@ def generate(seed, tier="quick"):
             where = rnd.randrange(len(ops) + 1)
             ops[where:where] = [["R", "resolve", first], ["M", -1, rnd.choice([[], [0], [1], [0, 0]]), ["token_attr"]],
                                 ["R", rnd.choice(["resolve", "keys_t"]) if rnd.random() < 0.8 else "resolve", second]]
+        pkg_entries = [i for i, e in enumerate(pool) if "resolve_pkg" in e["evals"]]
+        if pkg_entries and n_clients >= 2 and index < 2 and rnd.random() < 0.6:
+            # the first two clients resolve the same expression with packages at the same time (a yielding resolver
+            # keeps both in flight), then one of them edits what it got back
+            ops[0:0] = [["R", "resolve_pkg", pkg_entries[0]]] + (
+                [["M", -1, rnd.choice([[], [0]]), rnd.choice(EDITS)], ["R", "resolve_pkg", pkg_entries[0]]]
+                if index == 0 else [["S", 5], ["R", "resolve_pkg", pkg_entries[0]]]
+            )
         if flood and index == 0:
             sizes = [200, 1100, 1100] + ([5000, 9000] if big and rnd.random() < 0.15 else [])
             ops.insert(rnd.randrange(len(ops) + 1), ["F", rnd.choice(sizes), rnd.choice(["cond", "cond", "ahb"])])
